@@ -30,10 +30,19 @@ def tag(scn, v):
     o = scn.get('opts', {})
     if v.clause in ('C17.silent_success', 'C17.prompt') and o.get('auto_prompt_reset', True):
         # blind fall-back prompt commands (csh, zsh syntax) reached a shell that had accepted an earlier one?
-        return 'reset=True/%s' % ('fallback_commands_queued' if v.detail.get('prompt_setting_commands_received', 0) >= 2 else 'direct')
+        t = 'reset=True/%s' % ('fallback_commands_queued' if v.detail.get('prompt_setting_commands_received', 0) >= 2 else 'direct')
+        if v.detail.get('set_unique_prompt_returned') is False:
+            # login() went on although its own set_unique_prompt() reported failure: not the queued-fall-back finding
+            t += '/set_unique_prompt_failed'
+        return t
     if v.clause == 'C17.silent_success':
         # without prompt reset nothing verifies the login: which weaker safeguard, if any, was in force?
-        return 'reset=False/sync=%s/echo=%s' % (bool(o.get('sync_original_prompt', True)), bool(v.detail.get('session_echo', True)))
+        t = 'reset=False/sync=%s/echo=%s' % (bool(o.get('sync_original_prompt', True)), bool(v.detail.get('session_echo', True)))
+        if t.endswith('sync=True/echo=False') and v.detail.get('server_state') in ('password', 'passphrase', 'hostkey', 'termtype'):
+            # the server answers every newline login() types with the same question again: two identical answers pass
+            # the similarity test of sync_original_prompt()
+            t += '/server_reprompts'
+        return t
     if v.clause == 'C17.exception_type' and v.site:
         return '%s.%s' % (v.site[0].replace('.py', ''), v.site[1])
     return 'reset=%s/sync=%s' % (o.get('auto_prompt_reset'), o.get('sync_original_prompt'))
@@ -41,5 +50,5 @@ def tag(scn, v):
 
 def spec(pid):
     return CheckSpec('C17', 'pxssh login', pxssh_fam.generate, pxssh_fam.run, level='exploration',
-                     runs={'quick': 20000, 'thorough': 400000}, budget_s={'quick': 50, 'thorough': 900},
+                     runs={'quick': 60000, 'thorough': 600000}, budget_s={'quick': 60, 'thorough': 900},
                      rule=RULE, assumptions=ASSUME, components=COMP, nontrivial=nontrivial, tag=tag)
